@@ -36,7 +36,7 @@ def chk(pid, level_text, note, technique, ref):
     }
 claimed = [p for p in ('C08', 'C13', 'C20') if p not in NA]
 TEXT = {
- 'C08': ('Seeded search over histories of expand calls (2-40 ops; shared config dicts, held Config objects, shared caches, a global config; host edits/clones/rebuilds between calls) with faults injected inside calls (malformed input, poisoned snippets, failing editor callback, recursion-limit exhaustion, failure at the n-th library function entry). A deterministic part opens every batch: a systematic sweep of fault placements over 16 call shapes and ~90 scripted host scenarios. Every call is compared with the same call made in a pristine fork of an import-only interpreter (result string or exception, and what the caller's callbacks were asked on the way); identical calls repeated three times must not grow any emmet.* container, instance count or payload nor leave new library objects alive; 2 300 calls with pairwise distinct inputs must not keep growing module state. A clean batch is evidence, not proof; sampling is the right level because the space of histories is unbounded and the oracle is differential.',
+ 'C08': ('Seeded search over histories of expand calls (2-40 ops; shared config dicts, held Config objects, shared caches, a global config; host edits/clones/rebuilds between calls) with faults injected inside calls (malformed input, poisoned snippets, failing editor callback, recursion-limit exhaustion, failure at the n-th library function entry). A deterministic part opens every batch: a systematic sweep of fault placements over 16 call shapes and ~90 scripted host scenarios. Every call is compared with the same call made in a pristine fork of an import-only interpreter (result string or exception, and what the callbacks of the caller were asked on the way); identical calls repeated three times must not grow any emmet.* container, instance count or payload nor leave new library objects alive; 2 300 calls with pairwise distinct inputs must not keep growing module state. A clean batch is evidence, not proof; sampling is the right level because the space of histories is unbounded and the oracle is differential.',
          'Trusts: fork of an import-only zygote == fresh interpreter for everything the property can observe; assumptions A1-A6 in DESIGN.md section 7 (notably A1: one cache is never shared between different snippet tables; A6: no concurrent or re-entrant calls).',
          'deterministic simulation: seeded histories + fault injection, differential oracle against pristine forks, steady-state leak census', '4'),
  'C13': ('Seeded search over histories of 1-6 expand calls whose output.field/output.text callbacks are played by a simulated editor peer (8 answer styles incl. length-changing and empty answers; the peer can fail at its k-th invocation). The peer records every invocation; afterwards placement, line and column of every invocation are checked against the final string (in the property\'s own terms, never via OutputStream internals) and the tabstop indices against the numbering rules (1..n in document order, n taken from the generator\'s explicit tree for the HTML formatter; relative numbering and no collisions for explicit fields). The numbering clause is a function of the abbreviation alone and rides along because the peer witnesses the indices; exploration is the honest level.',
